@@ -5,6 +5,7 @@ import (
 	"go/token"
 	"go/types"
 	"os"
+	"regexp"
 	"sort"
 	"strings"
 
@@ -1079,6 +1080,137 @@ func c27DirectionTables(c *Ctx) {
 		okF := st != nil && st.NumFields() == 3 && names["ivTag"] && names["keyTag"] && names["macKeyTag"]
 		c.check(okF, rule, "direction fields", nil, "ivTag, keyTag, macKeyTag (bound by name through the initialiser's SSA, so their order is immaterial)", "type direction no longer has exactly the fields ivTag, keyTag, macKeyTag")
 	}
+}
+
+// ---------------------------------------------------------------------------
+// package-level tables: evaluate the init functions that fill a map
+
+type c27MapEntry struct {
+	key string
+	val c27Val
+	at  poser
+}
+
+// c27InitMap interprets every declared init function of package ssh that
+// refers to the package-level map `global` and returns, for the path that
+// registers the most names, the value assigned to each constant key — however
+// the value was built (literal, constructor helper, copy of another entry).
+// bad lists entries that differ between paths. ok is false when no init function
+// assigns to the map with constant keys or the interpretation left the model.
+func c27InitMap(c *Ctx, global string) (entries []c27MapEntry, ok bool, why string) {
+	sp := c.ssaPkg("ssh")
+	if sp == nil {
+		return nil, false, "package not loaded"
+	}
+	var names []string
+	for n, mem := range sp.Members {
+		if fn, isFn := mem.(*ssa.Function); isFn && strings.HasPrefix(n, "init#") && len(fn.Blocks) > 0 {
+			names = append(names, n)
+		}
+	}
+	sort.Strings(names)
+	prefix := global + "["
+	best := map[string]c27MapEntry{}
+	for _, n := range names {
+		fn := sp.Members[n].(*ssa.Function)
+		uses := false
+		deepInstrs(fn, func(in ssa.Instruction) {
+			for _, op := range in.Operands(nil) {
+				if g, isG := (*op).(*ssa.Global); isG && g.Name() == global && g.Pkg == sp {
+					uses = true
+				}
+			}
+		})
+		if !uses {
+			continue
+		}
+		x := &c27Exec{c: c, inlineAll: true, maxPath: 400}
+		paths, w := x.explore(fn, func(p *c27Path) []c27Val { return nil })
+		if w != "" {
+			return nil, false, fnName(fn) + ": " + w
+		}
+		var fullest map[string]c27MapEntry
+		for _, p := range paths {
+			if p.end != "return" {
+				continue
+			}
+			cur := map[string]c27MapEntry{}
+			for k, v := range p.mem {
+				if !strings.HasPrefix(k, prefix+`"`) || !strings.HasSuffix(k, `"]`) {
+					continue
+				}
+				key := k[len(prefix)+1 : len(k)-2]
+				var at poser = fn
+				if in := p.memAt[k]; in != nil {
+					at = in
+				}
+				cur[key] = c27MapEntry{key, v, at}
+			}
+			if len(cur) > len(fullest) {
+				fullest = cur
+			}
+		}
+		for k, e := range fullest {
+			best[k] = e
+		}
+	}
+	if len(best) == 0 {
+		return nil, false, "no init function assigns constant keys of " + global
+	}
+	var keys []string
+	for k := range best {
+		keys = append(keys, k)
+	}
+	sort.Strings(keys)
+	for _, k := range keys {
+		entries = append(entries, best[k])
+	}
+	return entries, true, ""
+}
+
+var c27HexArg = regexp.MustCompile(`\.SetString\([^"]*"([0-9A-Fa-f]+)",16\)`)
+
+// c27KexEntry describes a kexAlgoMap value: implementation type, exchange hash
+// (crypto.Hash constant name) and the curve constructor / Oakley group of its prime.
+func c27KexEntry(v c27Val, hashName func(int64) string) (tn, hs, extra string) {
+	var cell *c27Cell
+	switch {
+	case v.k == c27Ptr && v.cell != nil:
+		cell = v.cell
+	case v.k == c27Agg:
+		cell = v.cell
+	default:
+		return "?", "", ""
+	}
+	tn = typeName(cell.typ)
+	if fc := c27FieldCell(cell, "hashFunc"); fc != nil {
+		if fc.val.k == c27Int {
+			hs = hashName(fc.val.n)
+		} else {
+			hs = c27Short(c27Render(fc.val))
+		}
+	}
+	if fc := c27FieldCell(cell, "curve"); fc != nil {
+		extra = strings.TrimSuffix(c27Strip(c27Render(fc.val)), "()")
+	}
+	if fc := c27FieldCell(cell, "p"); fc != nil {
+		t := c27Strip(c27Render(fc.val))
+		if m := c27HexArg.FindStringSubmatch(t); m != nil && strings.HasSuffix(t, "#0") {
+			switch len(m[1]) {
+			case 256:
+				extra = "oakleyGroup2"
+			case 512:
+				extra = "oakleyGroup14"
+			case 1024:
+				extra = "oakleyGroup16"
+			default:
+				extra = fmt.Sprintf("hex[%d]", len(m[1]))
+			}
+		} else {
+			extra = "?"
+		}
+	}
+	return
 }
 
 var _ = token.ADD
